@@ -52,6 +52,14 @@ pub fn handle(job: &Value) -> Value {
 }
 
 fn main() {
+    // deep values (serialised chains, long rows) are walked recursively on the harness side too: run on a large stack
+    let h = std::thread::Builder::new().stack_size(2 << 30).spawn(real_main).expect("spawn main thread");
+    if h.join().is_err() {
+        std::process::exit(101);
+    }
+}
+
+fn real_main() {
     let args: Vec<String> = std::env::args().collect();
     if args.len() < 2 {
         eprintln!("usage: vh <command> ...");
